@@ -312,13 +312,19 @@ fn family_mutated(t: &mut Tape, gates: &Gates, valid: bool) -> String {
         p.finish()
     };
     gates.take_hits();
-    let derived = crate::tape::derived(&[t.byte(), t.byte(), t.byte(), t.byte()], 128);
+    let derived = crate::tape::derived(&[t.byte(), t.byte(), t.byte(), t.byte()], 256);
     let mut mt = Tape::new(&derived);
     if mt.ratio(5, 6) {
         mutate_lexemes(&mut lex, &mut mt);
     }
     let (lay, _) = layout(&lex, &SpellOpts::canonical(), &mut Tape::empty());
-    lay.text
+    let mut text = lay.text;
+    // now and then the file ends in text that cannot be matched (never-closed comment or string,
+    // junk), of every length and with multi-byte characters at every phase
+    if mt.ratio(1, 6) {
+        text.push_str(&crate::lexeme::unmatched_tail(&mut mt));
+    }
+    text
 }
 
 fn big(t: &mut Tape) -> String {
